@@ -524,11 +524,13 @@ def filter_rules(R):
     iv = s_[0]
     # counter: compared with len(pattern)
     jv = None
+    plen = set(["len(%s)" % pat]) | set(t.id for n in ast.walk(pfor) if isinstance(n, ast.Assign) and q.src(n.value) == "len(%s)" % pat
+                                         for t in n.targets if isinstance(t, ast.Name))
     for n in ast.walk(pfor):
         if isinstance(n, ast.Compare) and len(n.ops) == 1 and isinstance(n.ops[0], (ast.Eq, ast.Lt, ast.GtE, ast.NotEq)):
             sides = [q.src(n.left), q.src(n.comparators[0])]
-            if "len(%s)" % pat in sides:
-                other = [x for x in sides if x != "len(%s)" % pat][0]
+            if any(x in plen for x in sides):
+                other = [x for x in sides if x not in plen][0]
                 if other.isidentifier():
                     jv = other
     if jv is None and filter_slice_form(R, ft, fcfg, pfor, outer, pat, repl, lst, iv, len_aliases):
@@ -596,9 +598,9 @@ def filter_rules(R):
         if nd.kind != "test":
             return None
         k2, s2, pos2 = q.atom_test(nd.ast)
-        if k2 == "eq" and set(s2) == set([jv, "len(%s)" % pat]):
+        if k2 == "eq" and jv in s2 and any(x in plen for x in s2) and len(set(s2)) == 2:
             return "T" if pos2 else "F"
-        if k2 == "lt" and s2 == (jv, "len(%s)" % pat):
+        if k2 == "lt" and s2[0] == jv and s2[1] in plen:
             return "F" if pos2 else "T"
         return None
     p1 = kit.path_avoiding_guard(fcfg, emits, complete, N)
